@@ -16,13 +16,13 @@ EnvOr(k, d) == IF k \in DOMAIN IOEnv THEN IOEnv[k] ELSE d
 L1 == atoi(EnvOr("VERIF_L1", "12"))
 L2 == atoi(EnvOr("VERIF_L2", "120"))
 L3 == atoi(EnvOr("VERIF_L3", "0"))          \* 0 = none; the long members (chain / skip shapes only)
-Shapes == {"chain", "back", "ladder", "skip", "fan"}
+Shapes == {"chain", "back", "ladder", "skip", "fan", "mesh"}
 Pats == {"or", "and", "alt", "alt3"}
 Srcs == {<<"defense", 0>>, <<"defense", 5>>, <<"defense", 10>>, <<"exist", 0>>, <<"exist", 10>>, <<"notExist", 0>>, <<"notExist", 10>>}
 DistPos == {"none", "mid", "second"}
 
 \* number of source nodes at the head of the graph
-NSrc(shape) == IF shape \in {"ladder", "fan"} THEN 2 ELSE 1
+NSrc(shape) == IF shape \in {"ladder", "fan", "mesh"} THEN 2 ELSE 1
 KindAt(pat, i) == CASE pat = "or" -> "or" [] pat = "and" -> "and"
                     [] pat = "alt" -> (IF i % 2 = 0 THEN "or" ELSE "and")
                     [] pat = "alt3" -> (IF i % 3 = 0 THEN "and" ELSE "or")
@@ -31,6 +31,8 @@ ParAt(shape, L, i) ==
     [] shape = "back"   -> (IF i = 1 THEN {} ELSE IF i = 2 THEN {1, L} ELSE {i - 1})          \* one cycle through the whole chain
     [] shape = "ladder" -> (IF i <= 2 THEN {} ELSE IF i % 3 = 0 THEN {i - 1, i - 2} ELSE {i - 2}) \* two rails with rungs
     [] shape = "skip"   -> (IF i = 1 THEN {} ELSE IF i > 3 THEN {i - 1, i - 3} ELSE {i - 1})
+    \* pseudo-random parents of in-degree <= 3 anywhere in the graph: forward and backward edges, cycles, self-loops
+    [] shape = "mesh"   -> (IF i <= 2 THEN {} ELSE {((i * 7 + 3) % L) + 1, ((i * i + 1) % L) + 1, i - 1} \ {1 + (i % 2)})
     [] shape = "fan"    -> (IF i <= 2 THEN {} ELSE IF i % 4 = 3 THEN {1, i - 1} \ {i} ELSE IF i % 4 = 0 THEN {2, i - 1} ELSE {i - 1})
 \* the second source (ladder, fan): a defense whose status is the opposite extreme of the first source's
 Src2St(src) == IF src[2] = 10 THEN 0 ELSE 10
